@@ -2,13 +2,16 @@
 * Unless explicitly stated otherwise all files in this repository are licensed under the Apache-2.0 License.
 * This product includes software developed at Datadog (https://www.datadoghq.com/). Copyright 2022 Datadog, Inc.
 **/
-use swc_common::Spanned;
+use swc_common::{Span, Spanned};
 use swc_ecma_ast::*;
 use swc_ecma_visit::VisitMutWith;
 
 use crate::{
     transform::assign_add_transform::AssignOp::Assign,
-    visitor::operation_transform_visitor::OperationTransformVisitor,
+    visitor::{
+        ident_provider::{IdentKind, IdentProvider},
+        operation_transform_visitor::OperationTransformVisitor,
+    },
 };
 
 use super::{binary_add_transform::BinaryAddTransform, transform_status::TransformResult};
@@ -39,10 +42,15 @@ impl AssignAddTransform {
                     assign.right.clone()
                 };
 
+                // `o().p += s` is `o().p = o().p + s`: the object and the computed key of the target
+                // must be evaluated only once
+                let (target, target_value) =
+                    split_member_target(left_expr, &span, opv.ident_provider);
+
                 let binary = Expr::Bin(BinExpr {
                     span,
                     op: BinaryOp::Add,
-                    left: left_expr.clone().into(),
+                    left: target_value,
                     right,
                 });
 
@@ -55,7 +63,7 @@ impl AssignAddTransform {
                     let new_assign = AssignExpr {
                         span,
                         op: Assign,
-                        left: assign.left.clone(),
+                        left: target,
                         right: Box::new(result.expr.unwrap()),
                     };
                     TransformResult::modified(new_assign)
@@ -65,4 +73,73 @@ impl AssignAddTransform {
             }
         }
     }
+}
+
+/// returns the target to assign to and the expression that reads its current value. When the target is a
+/// member expression, its object and its computed key are assigned to a temporal variable in the target
+/// `(_1 = o()).p` and the variable is used to read the value `_1.p`
+fn split_member_target(
+    target: &SimpleAssignTarget,
+    span: &Span,
+    ident_provider: &mut dyn IdentProvider,
+) -> (AssignTarget, Box<Expr>) {
+    if let SimpleAssignTarget::Member(member) = target {
+        let mut write = member.clone();
+        let mut read = member.clone();
+
+        if let Some((assignation, ident)) = assign_to_temporal(&member.obj, span, ident_provider) {
+            write.obj = Box::new(assignation);
+            read.obj = Box::new(ident);
+        }
+
+        if let MemberProp::Computed(computed) = &member.prop {
+            if let Some((assignation, ident)) =
+                assign_to_temporal(&computed.expr, span, ident_provider)
+            {
+                write.prop = MemberProp::Computed(ComputedPropName {
+                    span: computed.span,
+                    expr: Box::new(assignation),
+                });
+                read.prop = MemberProp::Computed(ComputedPropName {
+                    span: computed.span,
+                    expr: Box::new(ident),
+                });
+            }
+        }
+
+        return (
+            AssignTarget::Simple(SimpleAssignTarget::Member(write)),
+            Box::new(Expr::Member(read)),
+        );
+    }
+
+    (
+        AssignTarget::Simple(target.clone()),
+        target.clone().into(),
+    )
+}
+
+fn assign_to_temporal(
+    expr: &Expr,
+    span: &Span,
+    ident_provider: &mut dyn IdentProvider,
+) -> Option<(Expr, Expr)> {
+    if expr.is_ident() || expr.is_this() || expr.is_lit() {
+        return None;
+    }
+
+    let mut assignations = Vec::new();
+    let ident = ident_provider.get_temporal_ident_used_in_assignation(
+        expr,
+        &mut assignations,
+        span,
+        IdentKind::Expr,
+    )?;
+
+    let assignation = Expr::Paren(ParenExpr {
+        span: *span,
+        expr: Box::new(assignations.pop()?),
+    });
+
+    Some((assignation, Expr::Ident(ident)))
 }
